@@ -322,4 +322,12 @@ impl Checksum {
 ''')]),
  dict(prop='C13', name='a free function in the sdt module writes the image behind the checksum', expect='Sdt.data',
       edits=[('src/sdt.rs', "impl Sdt {\n", "pub fn smash(t: &mut Sdt) {\n    t.data[10] = 1;\n}\n\nimpl Sdt {\n")]),
+ dict(prop='C18', name='PkgLength refusal bound one bit too high', expect='aml::create_pkg_length',
+      edits=[('src/aml.rs', "            assert!(length < 2usize.pow(28));", "            assert!(length < 2usize.pow(29));")]),
+ dict(prop='C04', name='SRAT device handle accepts device number 32', expect='srat::GenericInitiator::new',
+      edits=[('src/srat.rs', "        // The variant's fields are public, so a handle may not have gone through new_pci()\n        assert!(device < 32);", "        // The variant's fields are public, so a handle may not have gone through new_pci()\n        assert!(device <= 32);")]),
+ dict(prop='C16', name='hex2byte refuses the digit F in the low nibble', expect='aml::Uuid::new',
+      edits=[('src/aml.rs', "    assert!(lo <= 15);", "    assert!(lo < 15);")]),
+ dict(prop='C02', name='Tpm2 log area makes the start-method parameter slice one byte too long', expect='tpm2::Tpm2',
+      edits=[('src/tpm2.rs', "        self.start_method_param_len = 12;", "        self.start_method_param_len = 13;")]),
 ]
